@@ -389,6 +389,33 @@ def falsify(ctx):
             why = str_vs_path(jt, "jsonschema", suffix)
             if why:
                 report(f"str-vs-path:{suffix}:{jt[60:100]}", f"JSON text with exponent numbers: {why}", {"str_vs_path": [jt, "jsonschema", suffix]})
+    # local references that point past a named schema (into its properties), as a string and as a file
+    for cont in ("definitions", "$defs"):
+        docp = {"title": "Root", "type": "object", cont: {"Pet": {"type": "object", "properties": {"tag": {"type": "object", "properties": {"t": {"type": "string"}}},
+                                                                                                  "n": {"type": "integer"}}}},
+                "properties": {"first": {"$ref": f"#/{cont}/Pet/properties/tag"}, "pet": {"$ref": f"#/{cont}/Pet"}, "own": {"$ref": "#/properties/pet"}}}
+        for suffix in (".json", ".yaml"):
+            ctx.count("eval_e2e", 2)
+            ctx.bucket("family", "str-vs-path")
+            ctx.nontrivial("svp-pointer:" + cont + suffix)
+            why = str_vs_path(json.dumps(docp), "jsonschema", suffix)
+            if why:
+                report(f"str-vs-path:pointer:{cont}:{suffix}", f"local pointer references past a named schema ({cont}): {why}", {"str_vs_path": [json.dumps(docp), "jsonschema", suffix]})
+    # a named schema that is only allOf [one $ref] to an enumeration / an object / a scalar: the same classes in every container
+    alias_defs = {"Status": {"type": "string", "enum": ["active", "blocked"]}, "PetStatus": {"description": "d", "allOf": [{"$ref": "#/definitions/Status"}]},
+                  "Thing": {"type": "object", "properties": {"a": {"type": "integer"}}}, "ThingAlias": {"allOf": [{"$ref": "#/definitions/Thing"}]},
+                  "Code": {"type": "string", "minLength": 2}, "CodeAlias": {"allOf": [{"$ref": "#/definitions/Code"}]},
+                  "Statuses": {"type": "array", "items": {"$ref": "#/definitions/Status"}, "allOf": [{"$ref": "#/definitions/Status"}]}}
+    for drop, referenced in (((), True), (("Statuses",), True), (("Statuses",), False), ((), False)):
+        defs = {k: v for k, v in alias_defs.items() if k not in drop}
+        root = ({"type": "object", "properties": {"s": {"$ref": "#/definitions/PetStatus"}, "t": {"$ref": "#/definitions/ThingAlias"}, "c": {"$ref": "#/definitions/CodeAlias"}}}
+                if referenced else {"type": "object", "properties": {"st": {"$ref": "#/definitions/Status"}, "n": {"type": "integer"}}})
+        why, n = compare_matrix(rng, defs, root, {})
+        ctx.count("eval_e2e", n)
+        ctx.bucket("family", "alias-definitions")
+        ctx.nontrivial("alias:" + ",".join(drop) + str(referenced))
+        if why:
+            report(f"matrix:{{}}:{json.dumps([defs, root], sort_keys=False)}", f"single-reference allOf definitions: {why}", {"defs": defs, "root": root, "opts": {}})
     ctx.count("eval_e2e", 7)
     ctx.bucket("family", "auto-detect")
     ctx.nontrivial("auto-detect")
